@@ -511,6 +511,17 @@ func (w *World) boxToEvent(bx *Box) Value {
 // writeLine appends one marshalled event line to h's file.
 func (w *World) writeLine(c *callCtx, h *fileHandle, data Value) {
 	r := data.(RefV)
+	if len(r.Alts) == 1 {
+		if _, single := r.Alts[0].Tgt.(BoxT); !single {
+			if elems, ok := w.ex.asBoxSeq(r); ok {
+				w.writeSeq(c, h, elems)
+				return
+			}
+		}
+	} else if elems, ok := w.ex.asBoxSeq(r); ok {
+		w.writeSeq(c, h, elems)
+		return
+	}
 	if len(r.Alts) != 1 {
 		panic(unsupported("write of a byte-slice union"))
 	}
@@ -526,6 +537,56 @@ func (w *World) writeLine(c *callCtx, h *fileHandle, data Value) {
 	if wasInPlace {
 		h.inPlace = false
 		h.appendMd = true
+	}
+}
+
+// writeSeq: ONE write(2) carrying several lines. Killed inside it (torn), a prefix of the lines
+// lands whole and the next one as a fragment; tornAll = everything but the final newline.
+func (w *World) writeSeq(c *callCtx, h *fileHandle, elems []SeqElem) {
+	if h.inPlace {
+		panic(unsupported("multi-line write over existing content in place"))
+	}
+	for _, x := range h.files() {
+		cx := withGuard(c, x.g)
+		f := x.f
+		alive, idx := w.effect(cx, "write", f)
+		w.ex.scenarioMeta[fmt.Sprintf("effect%d.lines", idx)] = len(elems)
+		fs := w.fs
+		tornHere, tornAllHere := False, False
+		k := IntC(0)
+		if fs.die != nil {
+			here := And(cx.guard, Eq(fs.die, IntC(int64(idx))))
+			tornHere = And(here, fs.torn)
+			tornAllHere = And(here, fs.tornAll, Not(fs.torn))
+			k = w.ex.nondet(fmt.Sprintf("world.tornlines!%d", idx), "nat").(TimeV).T
+		}
+		glue := Not(f.endsWithNewline())
+		anyLands := Or(alive, tornHere, tornAllHere)
+		for _, cl := range f.Cells {
+			cl.Pres = And(cl.Pres, Not(And(anyLands, Not(cl.Complete))))
+		}
+		var earlier []*Term
+		for i, e := range elems {
+			var later []*Term
+			for _, l := range elems[i+1:] {
+				later = append(later, l.G)
+			}
+			isLast := Not(Or(later...))
+			isFirst := Not(Or(earlier...))
+			whole := Or(alive, And(tornHere, ILt(IntC(int64(i)), k)), And(tornAllHere, Not(isLast)))
+			frag := And(tornHere, Eq(k, IntC(int64(i))))
+			noNL := And(tornAllHere, isLast)
+			_, hasNL := e.B.Keys["\n"]
+			cell := &LineCell{
+				Pres:     And(e.G, Or(whole, frag, noNL)),
+				Blank:    False,
+				Parses:   And(Not(And(glue, isFirst)), Not(frag)),
+				Complete: And(BoolC(hasNL), whole),
+				Ev:       w.boxToEvent(e.B),
+			}
+			f.Cells = append(f.Cells, cell)
+			earlier = append(earlier, e.G)
+		}
 	}
 }
 
